@@ -38,6 +38,114 @@ pub enum HAct {
 
 pub struct TwoHandles;
 
+/// Perform one action on an (optional) engine; `Ok(true)` = acknowledged commit.
+fn do_act(slot: &mut Option<GraphEngine>, act: &HAct, ndb: &std::path::Path, wal: &std::path::Path) -> Result<bool, String> {
+    match act {
+        HAct::Open => {
+            *slot = Some(open_engine(ndb, wal)?);
+            Ok(false)
+        }
+        HAct::Commit { ext } => {
+            let e = slot.as_ref().ok_or("not open")?;
+            let mut tx = e.begin_write();
+            let l = tx.get_or_create_label("H").map_err(|e| e.to_string())?;
+            let n = tx.create_node(*ext, l).map_err(|e| e.to_string())?;
+            tx.set_node_property(n, "k0".into(), ndb_api::PropertyValue::Int(*ext as i64));
+            tx.commit().map_err(|e| e.to_string())?;
+            Ok(true)
+        }
+        HAct::Compact => {
+            let _ = slot.as_ref().ok_or("not open")?.compact();
+            Ok(false)
+        }
+        HAct::Close => {
+            let e = slot.take().ok_or("not open")?;
+            let _ = e.checkpoint_on_close();
+            Ok(false)
+        }
+        HAct::Drop => {
+            *slot = None;
+            Ok(false)
+        }
+    }
+}
+
+/// Child process of the two-process configuration: one JSON `HAct` per stdin line,
+/// one reply line (`ok`, `acked`, `err <message>`) per action.
+pub fn handle_server(ndb: &std::path::Path, wal: &std::path::Path) -> i32 {
+    use std::io::{BufRead, Write};
+    let stdin = std::io::stdin();
+    let mut out = std::io::stdout();
+    let mut slot: Option<GraphEngine> = None;
+    for line in stdin.lock().lines() {
+        let Ok(line) = line else { break };
+        let Ok(act) = serde_json::from_str::<HAct>(&line) else {
+            let _ = writeln!(out, "err bad action");
+            let _ = out.flush();
+            continue;
+        };
+        let reply = match std::panic::catch_unwind(std::panic::AssertUnwindSafe(|| do_act(&mut slot, &act, ndb, wal))) {
+            Ok(Ok(true)) => "acked".to_string(),
+            Ok(Ok(false)) => "ok".to_string(),
+            Ok(Err(e)) => format!("err {}", e.replace('\n', " ")),
+            Err(_) => "err panic".to_string(),
+        };
+        let _ = writeln!(out, "{reply}");
+        let _ = out.flush();
+    }
+    0
+}
+
+/// fork+exec in a multi-threaded process: between fork and exec the child holds copies of
+/// every descriptor of every worker thread, including their advisory locks, so a database
+/// closed and reopened by another worker in that window looks locked. Spawns therefore
+/// exclude running cases.
+static SPAWN_GATE: std::sync::RwLock<()> = std::sync::RwLock::new(());
+
+struct RemoteHandle {
+    child: std::process::Child,
+    stdin: std::process::ChildStdin,
+    stdout: std::io::BufReader<std::process::ChildStdout>,
+}
+
+impl RemoteHandle {
+    fn spawn(ndb: &std::path::Path, wal: &std::path::Path) -> Result<Self, String> {
+        let exe = std::env::current_exe().map_err(|e| e.to_string())?;
+        let mut child = std::process::Command::new(exe)
+            .arg("handle-server")
+            .arg(ndb)
+            .arg(wal)
+            .stdin(std::process::Stdio::piped())
+            .stdout(std::process::Stdio::piped())
+            .stderr(std::process::Stdio::null())
+            .spawn()
+            .map_err(|e| format!("spawn: {e}"))?;
+        let stdin = child.stdin.take().ok_or("no stdin")?;
+        let stdout = std::io::BufReader::new(child.stdout.take().ok_or("no stdout")?);
+        Ok(RemoteHandle { child, stdin, stdout })
+    }
+    fn act(&mut self, act: &HAct) -> Result<bool, String> {
+        use std::io::{BufRead, Write};
+        writeln!(self.stdin, "{}", serde_json::to_string(act).unwrap()).map_err(|e| format!("HARNESS pipe: {e}"))?;
+        self.stdin.flush().map_err(|e| format!("HARNESS pipe: {e}"))?;
+        let mut line = String::new();
+        self.stdout.read_line(&mut line).map_err(|e| format!("HARNESS pipe: {e}"))?;
+        match line.trim() {
+            "acked" => Ok(true),
+            "ok" => Ok(false),
+            "" => Err("HARNESS child process ended".into()),
+            other => Err(other.trim_start_matches("err ").to_string()),
+        }
+    }
+}
+
+impl Drop for RemoteHandle {
+    fn drop(&mut self) {
+        let _ = self.child.kill();
+        let _ = self.child.wait();
+    }
+}
+
 impl Check for TwoHandles {
     fn id(&self) -> &'static str {
         "C10"
@@ -77,7 +185,8 @@ impl Check for TwoHandles {
         }
         Case {
             property: "C10".into(),
-            config: "two_handles".into(),
+            // handle B lives in a second OS process in a small share of the cases
+            config: if rng.chance(0.03) { "two_processes".into() } else { "two_handles".into() },
             seed,
             ops: steps.iter().map(|s| serde_json::to_value(s).unwrap()).collect(),
             ..Default::default()
@@ -116,27 +225,60 @@ impl Check for TwoHandles {
         let sb = Sandbox::new("c10");
         let world = World::new(&sb.dir, case.seed);
         let _g = world.install();
-        let mut handles: [Option<GraphEngine>; 2] = [None, None];
+        let two_proc = case.config == "two_processes";
+        let (ndb, wal) = (sb.ndb(), sb.wal());
+        let mut local: [Option<GraphEngine>; 2] = [None, None];
+        let mut remote: Option<RemoteHandle> = if two_proc {
+            let _excl = SPAWN_GATE.write().unwrap_or_else(|p| p.into_inner());
+            match RemoteHandle::spawn(&ndb, &wal) {
+                Ok(r) => Some(r),
+                Err(e) => {
+                    res.harness_error = Some(e);
+                    return res;
+                }
+            }
+        } else {
+            None
+        };
+        let _shared = SPAWN_GATE.read().unwrap_or_else(|p| p.into_inner());
+        res.stats.inc(if two_proc { "config:two_processes" } else { "config:one_process" });
+        let mut is_open = [false, false];
         // a handle whose open was refused stays "closed"; its later actions are skipped
         let mut refused = [false, false];
         let mut acked: Vec<u64> = Vec::new();
         let mut both_open_at: Option<usize> = None;
         res.stats.inc("evaluations");
-        res.stats.see("interleavings", crate::prng::fnv(&format!("{steps:?}")));
+        res.stats.see("interleavings", crate::prng::fnv(&format!("{two_proc}{steps:?}")));
         for (i, (h, act)) in steps.iter().enumerate() {
+            if !matches!(act, HAct::Open) && (refused[*h] || !is_open[*h]) {
+                if matches!(act, HAct::Close | HAct::Drop) {
+                    refused[*h] = false;
+                }
+                continue;
+            }
+            let r = match (&mut remote, *h) {
+                (Some(rm), 1) => rm.act(act),
+                _ => do_act(&mut local[*h], act, &ndb, &wal),
+            };
+            if let Err(e) = &r
+                && e.starts_with("HARNESS")
+            {
+                res.harness_error = Some(e.clone());
+                return res;
+            }
             match act {
-                HAct::Open => match open_engine(&sb.ndb(), &sb.wal()) {
-                    Ok(e) => {
-                        handles[*h] = Some(e);
+                HAct::Open => match r {
+                    Ok(_) => {
+                        is_open[*h] = true;
                         refused[*h] = false;
-                        if handles[1 - *h].is_some() {
+                        if is_open[1 - *h] {
                             res.stats.inc("probe:second_open_succeeded");
                             both_open_at.get_or_insert(i);
                         }
                     }
                     Err(e) => {
                         refused[*h] = true;
-                        if handles[1 - *h].is_some() {
+                        if is_open[1 - *h] {
                             res.stats.inc("probe:second_open_refused");
                         } else {
                             res.viols.push(Viol {
@@ -149,38 +291,20 @@ impl Check for TwoHandles {
                         }
                     }
                 },
-                _ if refused[*h] || handles[*h].is_none() => {
-                    refused[*h] = matches!(act, HAct::Close | HAct::Drop).then_some(false).unwrap_or(refused[*h]);
-                }
                 HAct::Commit { ext } => {
-                    let e = handles[*h].as_ref().unwrap();
-                    let mut tx = e.begin_write();
-                    let ok = (|| -> Result<(), String> {
-                        let l = tx.get_or_create_label("H").map_err(|e| e.to_string())?;
-                        let n = tx.create_node(*ext, l).map_err(|e| e.to_string())?;
-                        tx.set_node_property(n, "k0".into(), ndb_api::PropertyValue::Int(*ext as i64));
-                        Ok(())
-                    })();
-                    if ok.is_ok() && tx.commit().is_ok() {
+                    if matches!(r, Ok(true)) {
                         acked.push(*ext);
                     }
                 }
-                HAct::Compact => {
-                    let _ = handles[*h].as_ref().unwrap().compact();
-                }
-                HAct::Close => {
-                    let e = handles[*h].take().unwrap();
-                    let _ = e.checkpoint_on_close();
-                }
-                HAct::Drop => {
-                    handles[*h] = None;
-                }
+                HAct::Compact => {}
+                HAct::Close | HAct::Drop => is_open[*h] = false,
             }
         }
         res.stats.sample(json!({ "seed": case.seed, "steps": steps.iter().map(|(h, a)| format!("{}:{a:?}", ["A", "B"][*h])).collect::<Vec<_>>() }));
         if let Some(at) = both_open_at {
             // show the consequence: close everything, reopen, compare with the acknowledged commits
-            handles = [None, None];
+            local = [None, None];
+            remote = None;
             let consequence = match open_engine(&sb.ndb(), &sb.wal()) {
                 Ok(e) => {
                     let snap = e.snapshot();
@@ -205,13 +329,16 @@ impl Check for TwoHandles {
         res
     }
     fn rule(&self) -> String {
-        "Two handles ('processes' sharing nothing but the simulated directory) on one database path; a PRNG-chosen interleaving of open / commit / compact / close / drop actions of both. Violation: an open succeeds while the other handle is open (the replay then closes both, reopens and reports which acknowledged commits were lost), or an open is refused although no other handle is open. evaluations = simulated interleavings; distinct_nontrivial = distinct action sequences.".into()
+        "Two handles on one database path, sharing nothing but the directory: both in this process, or (3% of the cases, config two_processes) the second one in a separate OS process driven over a pipe, one action at a time; a PRNG-chosen interleaving of open / commit / compact / close / drop actions of both. Violation: an open succeeds while the other handle is open (the replay then closes both, reopens and reports which acknowledged commits were lost), or an open is refused although no other handle is open. evaluations = simulated interleavings; distinct_nontrivial = distinct action sequences.".into()
     }
     fn nontrivial_set(&self) -> &'static str {
         "interleavings"
     }
     fn assumptions(&self) -> Vec<String> {
-        vec!["Both handles live in one OS process; cross-process exclusion is represented by the fact that the two engines share only the files (an advisory file lock behaves the same between open file descriptions of one process and of two).".into()]
+        vec![
+            "In the one-process configuration cross-process exclusion is represented by the fact that the two engines share only the files; the two-process configuration runs the second handle in a real second process (its file operations go to the same tmpfs directory, outside the I/O journal, which this check does not use).".into(),
+            "The interleaving is at action granularity (a handle's action completes before the other handle's next one starts); overlapping opens of two processes are not explored.".into(),
+        ]
     }
 }
 
